@@ -59,7 +59,7 @@ def stmtTargets : GStmt → List String
   | _ => []
 
 /-- callee and argument leaf texts of every `bindCall`, in program order -/
-def callTextsOf (s : GStmt) : List (List String × String × List (Option String)) :=
+def callTextsOfW (s : GStmt) : List (List String × String × List (Option String)) :=
   (bindCalls s).map (fun c => (c.1, c.2.1, c.2.2.map leafText?))
 
 /-! ### 2. constants in leaf texts -/
@@ -228,19 +228,24 @@ theorem lenOfText_whole (lens env t n) (h : lenLookup lens t = some n) :
     lenOfText lens env t = some n := by
   unfold lenOfText; rw [h]
 
+/-- `len(b[lo:hi])` from the two bounds, once evaluated -/
+def slice2 (lo hi : Option Int) (cap : Nat) : Option Nat :=
+  match lo, hi with
+  | some l, some h => sliceLen l h cap
+  | _, _ => none
+
+theorem slice2_some (l h : Int) (cap : Nat) : slice2 (some l) (some h) cap = sliceLen l h cap := by
+  exact id rfl
+theorem slice2_none_left (h : Option Int) (cap : Nat) : slice2 none h cap = none := by
+  cases h <;> exact id rfl
+theorem slice2_none_right (l : Option Int) (cap : Nat) : slice2 l none cap = none := by
+  cases l <;> exact id rfl
+
 theorem lenOfText_slice (lens env t b lo hi cap) (h0 : lenLookup lens t = none)
     (hp : parseSlice t = some (b, lo, hi)) (hb : lenLookup lens b = some cap) :
-    lenOfText lens env t =
-      match boundVal env lo, boundVal env hi with
-      | some l, some h => sliceLen l h cap
-      | _, _ => none := by
+    lenOfText lens env t = slice2 (boundVal env lo) (boundVal env hi) cap := by
   unfold lenOfText; rw [h0, hp]; simp only [hb]
   cases boundVal env lo <;> cases boundVal env hi <;> rfl
-
-theorem lenPair_some (cap : Nat) (l h : Int) :
-    (match (some l : Option Int), (some h : Option Int) with
-      | some l, some h => sliceLen l h cap
-      | _, _ => none) = sliceLen l h cap := by exact id rfl
 
 /-- the `copy` at which a run stopped, with its answer `min (len dst) (len src)` computed in the
     environment at the stop; `none`: not stopped at a `copy`, or a length is undefined (panic) -/
